@@ -191,7 +191,29 @@ class Driver:
         self.name = name
         self.path = os.path.join("drivers", name + ".lean")
 
+    _built = set()
+
+    def ensure_built(self):
+        """`lean --run` loads the driver's imports from compiled files: build them (no-op when present).  A model
+        that no longer builds (a regenerated table changed under it) shows as DriverError, like any driver failure."""
+        if self.name in Driver._built:
+            return
+        mods = []
+        try:
+            for line in open(os.path.join(LEAN_DIR, self.path), encoding="utf8"):
+                m = re.match(r"\s*import\s+(LoguruModel[\w.]*)", line)
+                if m:
+                    mods.append(m.group(1))
+        except OSError:
+            pass
+        if mods:
+            rc, out, dt = lean_build(mods)
+            if rc != 0:
+                raise DriverError("driver %s: its imports do not build\n%s" % (self.name, out[-3000:]))
+        Driver._built.add(self.name)
+
     def run(self, lines, timeout=3000):
+        self.ensure_built()
         data = "".join(l + "\n" for l in lines)
         assert all("\n" not in l and "\r" not in l for l in lines), "driver lines must be single lines"
         p = subprocess.run(
